@@ -34,6 +34,11 @@ func newLogger(p *LoggerProvider, scope instrumentation.Scope) *logger {
 }
 
 func (l *logger) Emit(ctx context.Context, r log.Record) {
+	if l.provider.stopped.Load() {
+		// The provider was shut down: its processors and exporters must not
+		// receive further records from loggers handed out earlier.
+		return
+	}
 	newRecord := l.newRecord(ctx, r)
 	for _, p := range l.provider.processors {
 		if err := p.OnEmit(ctx, &newRecord); err != nil {
